@@ -7,6 +7,7 @@
 //      compare under the documented normalisations only; writeDualFileReal: primal optimum == dual optimum
 //      (exact basis-enumeration oracle on the re-read dual).
 #include "vx_spx.hpp"
+#include "vx_planted.hpp"
 #include <mpfr.h>
 #include <setjmp.h>
 #include <dirent.h>
@@ -1190,9 +1191,82 @@ static uint64_t run_rational_exact(int slot, int i1, int i2, int fmt, Ctx& c)
    if(c.wantSample() && slot == 0 && i1 == 0 && i2 == 1) c.sample("{\"rational_exact_round_trip\":" + jstr(cs) + "}");
    return 9;
 }
+// ---- planted medium-size LPs through the writers and readers ---------------------------------------------------------------------
+// Rows with up to 40 nonzeros (the LP-format writer wraps long rows over several lines, the reader has to glue them again), dozens of rows and columns of every
+// bound / side shape.  Write (LP or MPS, floating-point or rational writer), read into a fresh object with name sets, then: same number of columns; every column
+// found by its name with the same objective coefficient (up to the documented sign inversion of maximisation in MPS) and bounds - exactly for LP format and for
+// the rational path, to 15 decimals for floating-point MPS; and "hence the same feasible set and optimum": the LP read back is solved and must show the planted
+// verdict and, for LPs with a finite optimum, the planted optimal value.  (Rows are compared through the solve because LP format may split ranged rows.)
+static uint64_t run_planted12(const PlantedSpec& sp, int fmt, int rational, Ctx& c)
+{
+   PlantedLP P = planted(sp);
+   TinyLP t = P.lp;
+   Q opt0 = P.cl.opt - q_of_double(t.offset);
+   t.offset = 0;
+   std::string cfgs = std::string(fmt ? "MPS" : "LP") + "," + (rational ? "rational" : "real") + "+planted";
+   std::string cs = "P|fmt=" + std::to_string(fmt) + ",rat=" + std::to_string(rational) + "|" + sp.str();
+   bool hasFreeRow = false;
+   for(int i = 0; i < t.m; ++i) if(t.lhs[i] <= -1e100 && t.rhs[i] >= 1e100) hasFreeRow = true;
+   if(fmt == 1 && hasFreeRow) { c.count("planted.mps_skipped_free_row"); return 1; }      // the MPS writer throws for free rows (recorded known finding)
+   std::string f = wfile(fmt ? ".mps" : ".lp");
+   SoPlex A;
+   quiet(A);
+   if(rational) A.setIntParam(SoPlex::SYNCMODE, SoPlex::SYNCMODE_AUTO);
+   load_real(A, t, 0);
+   bool wok = false;
+   try { wok = rational ? A.writeFileRational(f.c_str(), nullptr, nullptr, nullptr) : A.writeFileReal(f.c_str(), nullptr, nullptr, nullptr, true); }
+   catch(const SPxException& e) { c.violation("planted:write-exception@" + cfgs, cs, e.what()); unlink(f.c_str()); return 2; }
+   if(!wok) { c.violation("planted:write-failed@" + cfgs, cs, ""); unlink(f.c_str()); return 2; }
+   c.count("planted.files_written");
+   SoPlex B;
+   quiet(B);
+   if(rational) { B.setIntParam(SoPlex::SYNCMODE, SoPlex::SYNCMODE_AUTO); B.setIntParam(SoPlex::READMODE, SoPlex::READMODE_RATIONAL); }
+   NameSet rn, cn;
+   bool rok = false;
+   try { rok = B.readFile(f.c_str(), &rn, &cn); }
+   catch(const SPxException& e) { c.violation("planted:read-exception@" + cfgs, cs, e.what()); unlink(f.c_str()); return 3; }
+   unlink(f.c_str());
+   if(!rok) { c.violation("planted:read-failed@" + cfgs, cs, "readFile rejected a file written by the writer"); return 3; }
+   c.count("rt.roundtrips");
+   c.count("planted.roundtrips");
+   if(B.numCols() != t.n) { c.violation("planted:column-count-differs@" + cfgs, cs, "written " + std::to_string(t.n) + " read " + std::to_string(B.numCols())); return 4; }
+   if(B.numRows() < t.m - (hasFreeRow ? t.m : 0)) { c.violation("planted:row-count-smaller@" + cfgs, cs, "written " + std::to_string(t.m) + " read " + std::to_string(B.numRows())); return 4; }
+   bool bmax = B.intParam(SoPlex::OBJSENSE) == SoPlex::OBJSENSE_MAXIMIZE;
+   double sg = (bmax == t.maximize) ? 1.0 : -1.0;
+   bool exactCmp = (fmt == 0) || rational;
+   auto same = [&](double got, double want) { if(want >= 1e100 || want <= -1e100 || got >= 1e100 || got <= -1e100) return (got >= 1e100) == (want >= 1e100) && (got <= -1e100) == (want <= -1e100); return exactCmp ? got == want : fabs(got - want) <= 1e-14 * (1 + fabs(want)); };
+   for(int j = 0; j < t.n; ++j)
+   {
+      std::string nm = "x" + std::to_string(j);
+      int k = cn.number(nm.c_str());
+      if(k < 0 || k >= B.numCols()) { c.violation("planted:column-name-lost@" + cfgs, cs, "column " + nm + " not found after reading back"); return 5; }
+      if(!same(B.objReal(k), sg * t.c[j])) { c.violation("planted:objective-differs@" + cfgs, cs, nm + ": read " + TinyLP::num(B.objReal(k)) + " written " + TinyLP::num(sg * t.c[j])); return 5; }
+      if(!same(B.lowerReal(k), t.lo[j])) { c.violation("planted:lower-differs@" + cfgs, cs, nm + ": read " + TinyLP::num(B.lowerReal(k)) + " written " + TinyLP::num(t.lo[j])); return 5; }
+      if(!same(B.upperReal(k), t.up[j])) { c.violation("planted:upper-differs@" + cfgs, cs, nm + ": read " + TinyLP::num(B.upperReal(k)) + " written " + TinyLP::num(t.up[j])); return 5; }
+   }
+   int st = (int)B.optimize();
+   c.count("planted.solves_of_the_lp_read_back");
+   double want = sg * opt0.get_d();
+   if(sp.kind == 0 || sp.kind == 3)
+   {
+      if(st != 1) c.violation("planted:optimum-lost@" + cfgs, cs, "the LP read back has status " + std::to_string(st) + ", the written LP has the optimum " + opt0.get_str());
+      else if(fabs(B.objValueReal() - want) > 1e-6 * (1 + fabs(want))) c.violation("planted:optimal-value-differs@" + cfgs, cs, "read back: " + TinyLP::num(B.objValueReal()) + ", written LP: " + TinyLP::num(want));
+   }
+   else if(st == 1 || (sp.kind == 2 && st == 3)) c.violation("planted:verdict-differs@" + cfgs, cs, std::string("the written LP is ") + sp.kindName() + ", the LP read back has status " + std::to_string(st));
+   return 9 + st;
+}
+
 static void replay_one(const std::string& cs, Ctx& c)
 {
    auto p = split(cs, '|');
+   if(p.size() >= 3 && p[0] == "P")
+   {
+      int fmt = 0, rat = 0;
+      sscanf(p[1].c_str(), "fmt=%d,rat=%d", &fmt, &rat);
+      PlantedSpec sp;
+      if(PlantedSpec::parse(p[2], sp)) run_planted12(sp, fmt, rat, c);
+      return;
+   }
    if(p.size() >= 2 && p[0] == "Q")
    {
       int slot = 0, a = 0, b = 0, fmt = 0;
@@ -1545,6 +1619,20 @@ int main(int argc, char** argv)
    auto& C = rep.all.counters;
    uint64_t litcases = 0;
    for(int k = 0; k < NCTX; ++k) litcases += C[std::string("lit.cases.") + CTXNAME[k]];
+   if(want("planted"))
+   {
+      static PlantedGrid pg;
+      pg.sizes = {{5, 8}, {10, 10}, {16, 12}, {12, 20}, {24, 24}, {40, 25}, {40, 40}};
+      pg.densities = {40, 100};
+      pg.seeds = thorough ? 6 : 1;
+      pg.kinds = 4;
+      pg.magnitudes = 2;
+      rep.phase("planted LPs up to 40x40 x {LP, MPS} x {floating-point, rational} writer / reader", pg.size() * 4, [&](uint64_t idx, int, Ctx & c) -> uint64_t
+      {
+         return run_planted12(pg.at(idx / 4), int(idx & 1), int((idx >> 1) & 1), c);
+      }, [&](uint64_t idx, uint64_t) { return "P|fmt=" + std::to_string(idx & 1) + ",rat=" + std::to_string((idx >> 1) & 1) + "|" + pg.at(idx / 4).str(); }, o);
+      rep.extra["planted_grid"] = jstr("sizes (n x m) 5x8 10x10 16x12 12x20 24x24 40x25 40x40, densities 40/100 %, degenerate 0/1, min/max, kinds OPT/INF/UNB/COV, plain and power-of-two rescaled, seeds 0.." + std::to_string(pg.seeds - 1));
+   }
    rep.evaluations = litcases + C["rt.roundtrips"] + C["dual.cases"];
    rep.rule = "literal case = (string matching the grammar, reader) - every string up to the length bound is generated and filtered by the harness's own "
               "grammar matcher, all are distinct; round-trip case = (LP, format, read/write mode, write options), LPs are the canonical representatives of "
